@@ -63,6 +63,8 @@ func runC05(w *World, r *Report) {
 	r.Rule("C05-R5", "one time domain for the checkpoint time", "PositionInfo.Time of the source checkpoint is read by startInternal as the seek filter of the SOURCE stream; it must not be computed from the times of a pack handed to HandleReplicateMessage (rewritten for the downstream)", 3)
 	r.Rule("C05-R6", "attribution", "the record persisted after an acknowledged pack carries that replicate message's TaskID, CollectionID, CollectionName and PChannelName, and the persist call passes the record's own fields", 5)
 
+	r.Rule("C05-R7", "no gap before a checkpointed pack", "in the per-channel write loop of startReplicateDMLMsg every pack taken from the channel is handed to the packer or ends the loop: no path from the receive back to the loop head bypasses packer.Receive (except the dry-run branch), because the checkpoint persisted after a later pack would name a position beyond a pack that was never written", 1)
+	c05NoGap(w, r)
 	c06R5(w, r, "C05-R2")
 	// the batcher between the stream and the writer keeps arrival order and hands every pack over exactly once:
 	// the checkpoint persisted after a batch names its LAST pack, so reordering or skipping inside the batcher puts the
@@ -762,5 +764,93 @@ func c05SeekChain(w *World, r *Report) {
 		r.Check(ok, "C05-R4", "reader.getStream | Seek(position)", gs.Pos(), "the given position only", "the stream is not positioned at the given seek position")
 	} else {
 		r.Undecided("C05-R4", "getStream", 0, "anchor not found")
+	}
+}
+
+// c05NoGap: the write loop either hands a received pack to the packer or stops.
+func c05NoGap(w *World, r *Report) {
+	root := w.Func(pkgServer, "MetaCDC", "startReplicateDMLMsg")
+	if root == nil {
+		r.Undecided("C05-R7", "startReplicateDMLMsg", 0, "anchor not found")
+		return
+	}
+	n := 0
+	eachInstrDeep(root, func(fn *ssa.Function, in ssa.Instruction) {
+		c, ok := in.(*ssa.Call)
+		if !ok || callSym(c.Common()).name != "Receive" || callSym(c.Common()).recv != "Packer" {
+			return
+		}
+		n++
+		cons := shortFn2(fn) + " | write loop"
+		h := loopHeaderOf(c.Block())
+		if h == nil {
+			r.Fail("C05-R7", cons, c.Pos(), "packer.Receive is not inside the receive loop")
+			return
+		}
+		// the receive: the select (or plain receive) of the loop that dominates the hand-over
+		var recv ssa.Instruction
+		for _, b := range fn.Blocks {
+			if !(h == b || h.Dominates(b)) || !(b == c.Block() || b.Dominates(c.Block())) {
+				continue
+			}
+			for _, x := range b.Instrs {
+				switch y := x.(type) {
+				case *ssa.Select:
+					recv = y
+				case *ssa.UnOp:
+					if y.Op == token.ARROW {
+						recv = y
+					}
+				}
+			}
+		}
+		if recv == nil {
+			r.Undecided("C05-R7", cons, c.Pos(), "no receive dominating packer.Receive found in the loop")
+			return
+		}
+		stop := map[*ssa.BasicBlock]bool{c.Block(): true}
+		// the dry-run branch prints the pack and goes on: nothing is written or checkpointed at all in that mode
+		for _, b := range fn.Blocks {
+			cond, t, f, isIf := ifSuccs(b)
+			if !isIf {
+				continue
+			}
+			neg := false
+			if u, isU := cond.(*ssa.UnOp); isU && u.Op == token.NOT {
+				cond, neg = u.X, true
+			}
+			if strings.HasSuffix(w.accessPath(cond), ".DryRun") {
+				if neg {
+					stop[f] = true
+				} else {
+					stop[t] = true
+				}
+			}
+		}
+		reach := blockReach(recv.Block(), stop)
+		var via *ssa.BasicBlock
+		for _, p := range h.Preds {
+			if (p == h || h.Dominates(p)) && (reach[p] || p == recv.Block()) && !stop[p] {
+				via = p
+			}
+		}
+		if h != recv.Block() && !h.Dominates(recv.Block()) {
+			via = nil
+		}
+		pos := c.Pos()
+		why := ""
+		if via != nil {
+			for i := len(via.Instrs) - 1; i >= 0; i-- {
+				if via.Instrs[i].Pos().IsValid() {
+					pos = via.Instrs[i].Pos()
+					break
+				}
+			}
+			why = "a received pack can be dropped and the loop continued (block " + via.String() + " returns to the loop head without packer.Receive): a later pack of the same stream is then written and its position persisted beyond the dropped one"
+		}
+		r.Check(via == nil, "C05-R7", cons, pos, "every path from the receive reaches packer.Receive or leaves the loop", why)
+	})
+	if n == 0 {
+		r.Fail("C05-R7", "startReplicateDMLMsg | packer.Receive census", root.Pos(), "no packer.Receive call found in the write loop")
 	}
 }
